@@ -1133,10 +1133,17 @@ class Walker:
                 if l.k == 0:
                     st.dead = True
                 return
-            if self.P.prove_le0(l, st.facts) and self.P.prove_le0(-l, st.facts):
+            le, ge = self.P.prove_le0(l, st.facts), self.P.prove_le0(-l, st.facts)
+            if le and ge:
                 st.dead = True
                 return
             st.nes.append(l)
+            # integers: x != c together with x <= c gives x <= c - 1 (and symmetrically)
+            if not (len(c) > 2 and c[2]):
+                if le:
+                    st.facts.append(l + 1)
+                elif ge:
+                    st.facts.append(-l + 1)
         elif k == "and":
             for x in c[1]:
                 self._assume(st, x)
